@@ -452,7 +452,8 @@ def c06_designed():
 
 def C06(tier, seed):
     st = mean_stage("c06", "C06", arith_req("C06"), 0)
-    st.mc = list(TABLES_MC)
+    # even-dof rows of the t table certified from the algebraic closed form of the distribution function
+    st.mc = list(TABLES_MC) + [("MC_TCert", "MC_TCert.cfg", {"TCERT_MAX": 80 if tier == "quick" else 300}, 4)]
     return {
         "stages": [st, c06_designed(), prop_stage("row", 30 if tier == "quick" else 60, ["C02.root_lo", "C02.root_hi", "C02.negative_z", "C02.zero_z"],
                                   levels="all")],
@@ -462,7 +463,10 @@ def C06(tier, seed):
                 "must lie in the certified enclosure of the true t / normal quantile (relative allowance 2^-29 .. 2^-12 by nu); 12 designed unpaired "
                 "pairs with non-integer effective dof against the t quantile at that real dof, executed back to back on one thread. The z implied by "
                 "proportion intervals is decided by the root enclosure of C02 (same validator, all 19 levels).",
-        "assumptions": NUM_TRUST + ["quantiles are checked at the tabulated (nu, level) pairs only"],
+        "assumptions": NUM_TRUST + ["quantiles are checked at the tabulated (nu, level) pairs only",
+                                   "table rows with even dof <= 80 (300) are certified inside TLC from the algebraic closed form of the t distribution "
+                                   "function (MC_TCert, exact arithmetic); odd rows are bracketed by them through the monotonicity checked by MC_Tables; "
+                                   "rows beyond and the normal quantile rest on mpmath"],
     }
 
 
